@@ -316,6 +316,30 @@ void h_ensure_header(void) {
   CQV_CANARY("ensure_header harness end");
 }
 
+/* ---- ensure_row_group (C19: a failing column registration leaves no dangling row-group writer) ----- */
+void h_ensure_row_group(void) {
+  carquet_writer_t *w = mk_writer();
+  _Bool had = w->current_row_group != NULL;
+  carquet_row_group_writer_t *rg0 = w->current_row_group;
+  G_rg_destroy_calls = 0; G_rg_create_calls = 0;
+  carquet_status_t st = ensure_row_group(w);
+  __CPROVER_assert((w->current_row_group != NULL) == G_rg_live, "C19: the writer references a row-group writer exactly while one is live (no dangling handle)");
+  __CPROVER_assert(w->current_row_group == NULL || w->current_row_group == G_rg, "the referenced row-group writer is the live one");
+  __CPROVER_assert(!had || (st == CARQUET_OK && w->current_row_group == rg0 && G_rg_create_calls == 0), "an open row group is kept");
+  __CPROVER_assert(st != CARQUET_OK || w->current_row_group != NULL, "OK => a row group is open");
+  __CPROVER_assert(st == CARQUET_OK || had || (w->current_row_group == NULL && !G_rg_live), "failure => nothing stays open, the half-built row-group writer was destroyed");
+  if (st == CARQUET_OK && !had) {
+    __CPROVER_assert(w->current_row_group_rows == 0, "a fresh row group has no rows");
+    int32_t c = nondet_i32();
+    __CPROVER_assume(c >= 0 && c < w->num_columns);
+    __CPROVER_assert(w->column_values_written[c] == 0, "a fresh row group has no values in any column");
+    CQV_CANARY("ensure_row_group opens a row group");
+  }
+  if (st != CARQUET_OK && G_rg_destroy_calls == 1) CQV_CANARY("ensure_row_group: column registration can fail");
+  if (st != CARQUET_OK && G_rg_destroy_calls == 0) CQV_CANARY("ensure_row_group: creation can fail");
+  CQV_CANARY("ensure_row_group harness end");
+}
+
 /* ---- flush_row_group ------------------------------------------------------------------------- */
 void h_flush_row_group(void) {
   carquet_writer_t *w = mk_writer();
